@@ -330,15 +330,17 @@ impl Property for C12 {
                         local_update(&mut w, kind, li, &t, v);
                         locals_updated[li] = true;
                         log.push(format!("L{}[{:?}]+={}", li, t, show_f64(v)));
-                        // once per case (vector kinds, about 5% of them): the same local vector then touches 260-500 further tuples, one
+                        // once per case (vector kinds, about 5% of them): the same local vector then touches 260-500 (one time in twelve: 4100-4400) further tuples, one
                         // update each (the library imposes no limit on the number of children a local vector caches)
                         if kind.is_vec() && !burst_done && src.chance(2) {
                             burst_done = true;
-                            let n = 260 + src.below(240);
+                            // (one burst in twelve: 4100-4400 tuples - beyond 4096, the next size at which a cache gets bounded)
+                            let big = src.chance(21);
+                            let n = if big { 4100 + src.below(300) } else { 260 + src.below(240) };
                             for k in 0..n {
                                 local_update(&mut w, kind, li, &format!("#{}", (k * 7919 + 13) % 10007), 1.0);
                             }
-                            rep.class("local-vector-touches-260-500-tuples");
+                            rep.class(if big { "local-vector-touches-4100-4400-tuples" } else { "local-vector-touches-260-500-tuples" });
                             log.push(format!("L{}[#0..#{}]+=1", li, n));
                         }
                     }
